@@ -14,4 +14,6 @@ go build -race -tags verif -overlay bin/_overlay/overlay.json -o bin/vcheck-race
 # the reference model must agree with the GDA vector files (external authority), else nothing it says is believed
 ./bin/vcheck selftest-ref /repo/testdata > bin/selftest-ref.log 2>&1 || { echo "reference model self-test failed"; head -20 bin/selftest-ref.log; exit 1; }
 head -1 bin/selftest-ref.log
+# the scheduler's own tests: lost updates found without a lock and never with one, lock-order deadlocks detected
+go test -count=1 ./internal/sched/ > bin/sched-selftest.log 2>&1 || { echo "scheduler self-test failed"; tail -20 bin/sched-selftest.log; exit 1; }
 echo "setup ok"
